@@ -59,7 +59,8 @@ type Contract struct {
 	Ghosts      []string
 	Except      []Expr // modifies * except ...
 	Afters      []*AfterHook
-	Hides       []string // pure spec functions treated as uninterpreted (heap-parametric) within this function's VC
+	Hides       []string        // pure spec functions treated as uninterpreted (heap-parametric) within this function's VC
+	Options     map[string]bool // per-function encoding options (see CONTRACTS.md): namedjoins
 	ReadsClock  bool
 }
 
@@ -143,7 +144,7 @@ type Contracts struct {
 	overlay     map[string][]byte
 }
 
-var kwRe = regexp.MustCompile(`^(inventory|func|prop|requires|ensures|modifies|loop|site|trusted|inline|let|pure|axiom|lemma|invariant|nopanic|maypanic|finding|ispure|witness|uses|repinv|frozenclock|readsclock|rec|hides|ghost|after)\b`)
+var kwRe = regexp.MustCompile(`^(inventory|func|prop|requires|ensures|modifies|loop|site|trusted|inline|let|pure|axiom|lemma|invariant|nopanic|maypanic|finding|ispure|witness|uses|repinv|frozenclock|readsclock|rec|hides|ghost|after|option)\b`)
 
 func LoadContracts(p *Program) (*Contracts, error) {
 	cs := &Contracts{Fns: map[string]*Contract{}, Pures: map[string]*PureFn{}, RepInvs: map[string]*RepInv{}}
@@ -384,6 +385,16 @@ func (cs *Contracts) parseFile(path string, pkg *types.Package) error {
 		case "hides":
 			for _, x := range strings.FieldsFunc(rest, func(r rune) bool { return r == ',' || r == ' ' }) {
 				cur.Hides = append(cur.Hides, x)
+			}
+		case "option":
+			if cur.Options == nil {
+				cur.Options = map[string]bool{}
+			}
+			for _, x := range strings.Fields(rest) {
+				if x != "namedjoins" && x != "appendsrc" && x != "listsidx" {
+					return fail(rc, "unknown option %s", x)
+				}
+				cur.Options[x] = true
 			}
 		case "frozenclock":
 			cur.FrozenClock = true
